@@ -55,6 +55,10 @@ const (
 	minAccountExpiry = 144       // One day worth of blocks.
 	maxAccountExpiry = 144 * 365 // A year worth of blocks.
 
+	// MaxAccountExpiry is the maximum number of blocks from the current
+	// height an account's expiry can be set to.
+	MaxAccountExpiry = maxAccountExpiry
+
 	txLabelPrefixTag = "poold -- "
 )
 
